@@ -156,7 +156,7 @@ static jwk_item_t *jwk_process_one(jwk_set_t *jwk_set, json_t *jwk)
 	item->json = json_deep_copy(jwk);
 	if (item->json == NULL) {
 		// LCOV_EXCL_START
-		jwt_freemem(jwk);
+		jwt_freemem(item);
 		jwt_write_error(jwk_set,
 			"Error allocating memory for jwk_item_t");
 		return NULL;
@@ -442,12 +442,14 @@ static jwk_set_t *jwks_process(jwk_set_t *jwk_set, json_t *j_all, json_error_t *
         if (j_array == NULL) {
                 /* Assume a single JSON Object for one JWK */
                 jwk_item = jwk_process_one(jwk_set, j_all);
-                jwks_item_add(jwk_set, jwk_item);
+                if (jwk_item)
+                        jwks_item_add(jwk_set, jwk_item);
         } else {
                 /* We have a list, so parse them all. */
                 json_array_foreach(j_array, i, j_item) {
                         jwk_item = jwk_process_one(jwk_set, j_item);
-                        jwks_item_add(jwk_set, jwk_item);
+                        if (jwk_item)
+                                jwks_item_add(jwk_set, jwk_item);
                 }
         }
 
